@@ -250,8 +250,18 @@ func enumerate() []history {
 			out = append(out, history{N: h.N, Evs: h.Evs, CR0: true})
 		}
 	}
-	// (the short targeted families run first: a time-capped run still covers them)
-	return append(front, out...)
+	// (the targeted families and the special configurations run first: a
+	// time-capped run on a loaded machine still covers them; the bulk of
+	// plain histories comes last)
+	var special, plain []history
+	for _, h := range out {
+		if h.SNAP || h.CR0 {
+			special = append(special, h)
+		} else {
+			plain = append(plain, h)
+		}
+	}
+	return append(append(front, special...), plain...)
 }
 
 // ---------- world ----------
